@@ -1003,6 +1003,111 @@ func tlOddLifetimes(s *Stream, rng *Rng, L, Q int) {
 	}
 }
 
+// ---- scenario: every lane stuck in the hand-over, then ONE worker becomes idle (C08) --------------
+
+// All L workers are occupied by long tasks; one short task is pushed to every lane, so every queue
+// goroutine holds its head task in the hand-over at the same time. Then exactly one long task is
+// released: the single idle worker must work off the heads of ALL lanes, whichever worker it is.
+func tlStuckLanes(s *Stream, rng *Rng, L, Q int) {
+	sc := tlScenario{Kind: "stuck-lanes", L: L, Q: Q, Seed: rng.s}
+	ctx, cancel := context.WithCancel(context.Background())
+	defer cancel()
+	tl := tasklane.New(ctx, L, Q)
+	tl.SetTimeout(tlDeadline)
+	r := newTLRun()
+	var pushes []tlPush
+	rel := make([]chan struct{}, L)
+	for i := 0; i < L; i++ {
+		rel[i] = make(chan struct{})
+		t := &tlTask{id: 9000 + i, r: r, block: rel[i]}
+		pushes = append(pushes, tlPush{t.id, i, tl.PushTask(t, i)})
+	}
+	if !waitUntil(tlDeadline, func() bool { return r.startedCount() == L }) {
+		s.Violate("accepted-task-not-started", fmt.Sprintf("only %d of %d long tasks started with all workers idle", r.startedCount(), L), sc)
+	}
+	perLane := 1 + rng.Intn(Q+1)
+	m := 0
+	for k := 0; k < perLane; k++ {
+		for lane := 0; lane < L; lane++ {
+			t := &tlTask{id: m, r: r}
+			pushes = append(pushes, tlPush{m, lane, tl.PushTask(t, lane)})
+			m++
+		}
+	}
+	time.Sleep(time.Duration(1+rng.Intn(3)) * time.Millisecond) // let every queue goroutine reach the hand-over
+	freed := rng.Intn(L)
+	close(rel[freed])
+	sc.NTasks = m
+	sc.Detail = fmt.Sprintf("all %d workers busy, %d short task(s) at every lane, then the long task pushed to lane %d returns", L, perLane, freed)
+	ok := waitUntil(tlDeadline, func() bool {
+		_, fin, _, _ := r.snapshot()
+		return fin == m+1
+	})
+	if !ok {
+		_, fin, _, _ := r.snapshot()
+		s.Violate("head-of-line-blocking", fmt.Sprintf("only %d of %d short tasks completed although one worker has been idle for %v (%s)", fin-1, m, tlDeadline, sc.Detail), sc)
+	}
+	for i := range rel {
+		if i != freed {
+			close(rel[i])
+		}
+	}
+	waitUntil(tlDeadline, func() bool { _, fin, _, _ := r.snapshot(); return fin == m+L })
+	cancel()
+	tlFinalChecks(s, sc, tl, r, pushes, ctx)
+	s.Evaluations++
+	s.Count(fmt.Sprintf("stuck-lanes.L%d.Q%d", L, Q))
+	s.Nontrivial(fmt.Sprintf("stuck-lanes/%d/%d/%d/%d", L, Q, perLane, freed))
+}
+
+// ---- scenario: many goroutines enter Wait() at the same moment, round after round (C07) ----------
+
+func tlManyWaiters(s *Stream, rng *Rng, L, Q, rounds int) {
+	sc := tlScenario{Kind: "many-waiters", L: L, Q: Q, Seed: rng.s}
+	for round := 0; round < rounds; round++ {
+		ctx, cancel := context.WithCancel(context.Background())
+		tl := tasklane.New(ctx, L, Q)
+		tl.SetTimeout(time.Millisecond)
+		r := newTLRun()
+		release := make(chan struct{})
+		var pushes []tlPush
+		n := L * (Q + 2)
+		if round%3 == 1 {
+			n = L + 1 + rng.Intn(L*(Q+1)) // partly filled queues
+		}
+		for i := 0; i < n; i++ {
+			t := &tlTask{id: i, r: r, block: release}
+			pushes = append(pushes, tlPush{i, i % L, tl.PushTask(t, i%L)})
+		}
+		nw := 2 + rng.Intn(6)
+		start := make(chan struct{})
+		var wwg sync.WaitGroup
+		for w := 0; w < nw; w++ {
+			wwg.Add(1)
+			go func() { defer wwg.Done(); <-start; tl.Wait() }()
+		}
+		cancel()
+		close(release)
+		close(start)
+		allBack := make(chan struct{})
+		go func() { wwg.Wait(); close(allBack) }()
+		select {
+		case <-allBack:
+		case <-time.After(tlDeadline):
+			sc.Detail = fmt.Sprintf("round %d: %d tasks pushed, %d concurrent Wait() callers", round, n, nw)
+			s.Violate("wait-does-not-return", "one of several concurrent Wait() callers did not return after cancel although every started task has returned ("+sc.Detail+")", sc)
+			return
+		}
+		tlFinalChecks(s, sc, tl, r, pushes, ctx)
+		s.Evaluations++
+		if tlEnough(s) {
+			return
+		}
+	}
+	s.Count(fmt.Sprintf("many-waiters.L%d.Q%d", L, Q))
+	s.Nontrivial(fmt.Sprintf("many-waiters/%d/%d", L, Q))
+}
+
 // ---- driver -----------------------------------------------------------------------------------------
 
 // tlEnough: once a few violations are recorded there is no point in running the remaining
@@ -1051,7 +1156,7 @@ func runTL(cfg Cfg, name string) {
 			}
 		}
 	case "tl_share":
-		s.Rule = "for laneSize 2..4, queueSize 0..3 and every number 1..laneSize-1 of pinned workers: short tasks all pushed to one lane must complete while the pinned workers stay blocked; max concurrency <= laneSize on every run; non-trivial = distinct (L,Q,pinned,target lane,tasks)"
+		s.Rule = "for laneSize 2..4, queueSize 0..3 and every number 1..laneSize-1 of pinned workers: short tasks all pushed to one lane must complete while the pinned workers stay blocked; all workers busy with a short task at the head of every lane, then one worker freed: every head completes; max concurrency <= laneSize on every run; non-trivial = distinct (L,Q,pinned,target lane,tasks)"
 		for rep := 0; rep < cfg.N(3, 25); rep++ {
 			for L := 2; L <= maxL+1 && L <= 4; L++ {
 				for Q := 0; Q <= maxQ; Q++ {
@@ -1064,6 +1169,16 @@ func runTL(cfg Cfg, name string) {
 				}
 			}
 		}
+		for rep := 0; rep < cfg.N(2, 12); rep++ {
+			for L := 2; L <= 4; L++ {
+				for Q := 0; Q <= maxQ; Q++ {
+					if tlEnough(s) {
+						break
+					}
+					tlStuckLanes(s, rng.Fork(), L, Q)
+				}
+			}
+		}
 		for i := 0; i < cfg.N(40, 400); i++ {
 			if tlEnough(s) {
 				break
@@ -1071,7 +1186,7 @@ func runTL(cfg Cfg, name string) {
 			tlStress(s, rng.Fork(), false, false)
 		}
 	case "tl_cancel":
-		s.Rule = "cancellation (cancel func or expiring deadline) landing while a goroutine is held at each protocol point (q.took, q.counted, q.blocking, q.handed, w.got, p.enter, p.inner) in each base state (idle, queues full, producers blocked, workers mid-task), lanes 1..3 x queue 0..2; oracle: Wait returns, no goroutine left, PushTask after cancel returns the context error, blocked producers released, nothing started twice or after Wait; non-trivial = distinct (L,Q,point,base,ctx kind,point reached)"
+		s.Rule = "cancellation (cancel func or expiring deadline) landing while a goroutine is held at each protocol point (q.took, q.counted, q.blocking, q.handed, w.got, p.enter, p.inner) in each base state (idle, queues full, producers blocked, workers mid-task), lanes 1..3 x queue 0..2; plus 2..7 goroutines entering Wait() at the same moment with (partly) full queues, round after round; oracle: Wait returns, no goroutine left, PushTask after cancel returns the context error, blocked producers released, nothing started twice or after Wait; non-trivial = distinct (L,Q,point,base,ctx kind,point reached)"
 		kinds := []string{"cancel", "deadline"}
 		for rep := 0; rep < cfg.N(4, 20); rep++ {
 			for L := 1; L <= maxL; L++ {
@@ -1087,6 +1202,14 @@ func runTL(cfg Cfg, name string) {
 					break
 				}
 				tlOddLifetimes(s, rng.Fork(), L, Q)
+			}
+		}
+		for L := 1; L <= 4; L += 3 {
+			for _, Q := range []int{1, 8} {
+				if tlEnough(s) {
+					break
+				}
+				tlManyWaiters(s, rng.Fork(), L, Q, cfg.N(60, 500))
 			}
 		}
 		for rep := 0; rep < cfg.N(1, 6); rep++ {
